@@ -597,6 +597,7 @@ func (e *Enc) heapGet(st *State, key string) string {
 	// across everything after the same havoc-everything point
 	n := fmt.Sprintf("%s!e%d", sanitize(key), st.Epoch)
 	e.decl(fmt.Sprintf("(declare-const %s %s)", n, srt))
+	st.H[key] = n // tracked from now on (so a later havoc-everything can relate old and new versions)
 	return n
 }
 
